@@ -19,9 +19,11 @@ pub struct Scenario {
     pub n_htlcs: usize,
     pub script: Script,
     pub stored_pending: bool,
+    pub probe_aged: bool,
+    pub probe_same: bool,
 }
 
-pub fn canonical_plan(n_htlcs: usize) -> impl FnOnce(&mut Rng) -> Plan {
+pub fn canonical_plan(n_htlcs: usize, probe_aged: bool, probe_same: bool) -> impl FnOnce(&mut Rng) -> Plan {
     move |rng: &mut Rng| {
         let cfg = SimCfg {
             base: 0,
@@ -39,6 +41,8 @@ pub fn canonical_plan(n_htlcs: usize) -> impl FnOnce(&mut Rng) -> Plan {
             max_steps: 600,
             probe: true,
             age_pending_secs: None,
+            probe_age_secs: if probe_aged { Some(160) } else { None },
+            probe_same_process: probe_same,
         };
         let local_sk = secret_key(rng);
         let local_pk = pubkey(&local_sk);
@@ -109,11 +113,15 @@ pub fn scenarios(thorough: bool) -> Vec<Scenario> {
                     if !thorough && (deliver_first && n == 1) {
                         continue;
                     }
+                    for (probe_aged, probe_same) in [(false, false), (true, false), (false, true)] {
                     v.push(Scenario {
                         n_htlcs: n,
                         stored_pending: false,
+                        probe_aged,
+                        probe_same,
                         script: Script { crash_at_step: None, fault_at_write: None, pay_outcome: o.clone(), finish_before_resolve: *before, part_completes: *completes, fuse, deliver_first, freeze: None },
                     });
+                    }
                 }
             }
         }
@@ -121,8 +129,8 @@ pub fn scenarios(thorough: bool) -> Vec<Scenario> {
     v
 }
 
-fn run_scn(seed: u64, sc: &Scenario, script: Script) -> RunResult {
-    run_one(RunOpts { seed, profile: Profile::Crashy, thorough: false, log_events: false, script: Some(script), plan_override: Some(Box::new(canonical_plan(sc.n_htlcs))), target: None })
+fn run_scn(seed: u64, sc: &Scenario, script: Script, target: &str) -> RunResult {
+    run_one(RunOpts { seed, profile: Profile::Crashy, thorough: false, log_events: false, script: Some(script), plan_override: Some(Box::new(canonical_plan(sc.n_htlcs, sc.probe_aged, sc.probe_same))), target: Some(target.to_string()) })
 }
 
 pub struct EnumResult {
@@ -145,7 +153,7 @@ pub fn enumerate(target: &str, rules: &[&str], thorough: bool, wall_cap_s: u64) 
     let mut n_fault = 0u64;
     let mut n_comb = 0u64;
     for (si, sc) in scns.iter().enumerate() {
-        let base = run_scn(1000 + si as u64, sc, sc.script.clone());
+        let base = run_scn(1000 + si as u64, sc, sc.script.clone(), "-");
         let steps = base.steps;
         let writes = base.n_writes;
         items.push((si, None, None));
@@ -190,7 +198,7 @@ pub fn enumerate(target: &str, rules: &[&str], thorough: bool, wall_cap_s: u64) 
                     script.crash_at_step = crash;
                     script.fault_at_write = fault;
                     let seed = 1000 + si as u64;
-                    let r = match std::panic::catch_unwind(std::panic::AssertUnwindSafe(|| run_scn(seed, sc, script.clone()))) {
+                    let r = match std::panic::catch_unwind(std::panic::AssertUnwindSafe(|| run_scn(seed, sc, script.clone(), target))) {
                         Ok(r) => r,
                         Err(_) => {
                             crate::sim::PANICS.with(|p| p.borrow_mut().clear());
@@ -218,7 +226,7 @@ pub fn replay_item(thorough: bool, idx: usize) -> Option<RunResult> {
     let scns = scenarios(thorough);
     let mut i = 0usize;
     for (si, sc) in scns.iter().enumerate() {
-        let base = run_scn(1000 + si as u64, sc, sc.script.clone());
+        let base = run_scn(1000 + si as u64, sc, sc.script.clone(), "-");
         let mut items: Vec<(Option<u64>, Option<(u64, &'static str)>)> = vec![(None, None)];
         for k in 0..=base.steps {
             items.push((Some(k), None));
@@ -239,7 +247,7 @@ pub fn replay_item(thorough: bool, idx: usize) -> Option<RunResult> {
             script.crash_at_step = crash;
             script.fault_at_write = fault;
             eprintln!("scenario {si}: {:?}", script);
-            return Some(run_one(RunOpts { seed: 1000 + si as u64, profile: Profile::Crashy, thorough: false, log_events: true, script: Some(script), plan_override: Some(Box::new(canonical_plan(sc.n_htlcs))), target: None }));
+            return Some(run_one(RunOpts { seed: 1000 + si as u64, profile: Profile::Crashy, thorough: false, log_events: true, script: Some(script), plan_override: Some(Box::new(canonical_plan(sc.n_htlcs, sc.probe_aged, sc.probe_same))), target: None }));
         }
         i += items.len();
     }
